@@ -19,7 +19,6 @@ import (
 
 type (
 	Locker    = sync.Locker
-	RWMutex   = sync.RWMutex
 	WaitGroup = sync.WaitGroup
 	Once      = sync.Once
 	Map       = sync.Map
@@ -57,3 +56,57 @@ func (m *Mutex) TryLock() bool {
 	vsched.AfterTryLock(m, ok)
 	return ok
 }
+
+// RWMutex is the scheduled reader/writer mutex: RLock is released when the
+// model has no writer, Lock when it has neither writer nor readers.
+type RWMutex struct {
+	mu sync.RWMutex
+}
+
+// Lock parks until there is neither a writer nor a reader in the model.
+func (m *RWMutex) Lock() {
+	vsched.BeforeWLock(m)
+	m.mu.Lock()
+}
+
+// Unlock releases the write lock.
+func (m *RWMutex) Unlock() {
+	m.mu.Unlock()
+	vsched.AfterWUnlock(m)
+}
+
+// RLock parks until there is no writer in the model.
+func (m *RWMutex) RLock() {
+	vsched.BeforeRLock(m)
+	m.mu.RLock()
+}
+
+// RUnlock releases a read lock.
+func (m *RWMutex) RUnlock() {
+	m.mu.RUnlock()
+	vsched.AfterRUnlock(m)
+}
+
+// TryLock is a scheduling point followed by the real TryLock.
+func (m *RWMutex) TryLock() bool {
+	vsched.Yield()
+	ok := m.mu.TryLock()
+	vsched.AfterTryWLock(m, ok)
+	return ok
+}
+
+// TryRLock is a scheduling point followed by the real TryRLock.
+func (m *RWMutex) TryRLock() bool {
+	vsched.Yield()
+	ok := m.mu.TryRLock()
+	vsched.AfterTryRLock(m, ok)
+	return ok
+}
+
+// RLocker returns a Locker for the read side.
+func (m *RWMutex) RLocker() Locker { return (*rlocker)(m) }
+
+type rlocker RWMutex
+
+func (r *rlocker) Lock()   { (*RWMutex)(r).RLock() }
+func (r *rlocker) Unlock() { (*RWMutex)(r).RUnlock() }
